@@ -1781,14 +1781,20 @@ func (ip *Interp) builtin(name string, args []AV, cc *ssa.CallCommon) AV {
 		}
 		var cur []AV
 		if s, ok := args[0].(*SliceV); ok {
-			// always reallocate: aliasing through spare capacity is outside the evaluated fragment, and a program
-			// whose result depends on it would be reading memory this model does not track
+			// beyond the capacity: reallocate with the exact length (Go's growth policy is not modelled)
 			cur = s.elems()
 		} else if _, ok := args[0].(NilV); !ok {
 			ood("append to %s", avString(args[0]))
 		}
 		if len(cur)+len(add) == 0 {
 			return args[0]
+		}
+		if s, ok := args[0].(*SliceV); ok && s.B != nil && s.B.aliasBuf == nil && len(add) > 0 && s.Hi+len(add) <= s.Cap && s.Cap <= len(s.B.cells) {
+			// enough spare capacity: the new elements land in the shared backing array, as in Go
+			for j, a := range add {
+				s.B.cells[s.Hi+j].V = copyVal(a)
+			}
+			return &SliceV{B: s.B, Lo: s.Lo, Hi: s.Hi + len(add), Cap: s.Cap}
 		}
 		out := ip.mkSlice(append(cur, add...))
 		if s, ok := args[0].(*SliceV); ok && s.B != nil && s.B.aliasBuf != nil && s.Lo == 0 && len(cur)+len(add) <= s.B.aliasCap {
